@@ -179,7 +179,7 @@ package roundrobin
 //@   modifies everything
 
 //@ func (*Rebalancer).ServeHTTP
-//@   props C02 C11 C20
+//@   props C01 C02 C11 C20
 //@   requires req != nil
 //@   requires sticky_configured: rb.stickySession != nil ==> rb.stickySession.cookieValue != nil
 //@   modifies everything
@@ -189,7 +189,7 @@ package roundrobin
 //@   at_call rb.next.Next.ServeHTTP {C20} forwarding_writer_copied_request: istype(arg0, "*utils.ProxyWriter") && asref(payload(arg0), "*utils.ProxyWriter").w == w && arg1 != req
 //@   ensures error_only_without_server: calls(rb.errHandler.ServeHTTP) == 1 ==> calls(rb.next.NextServer) == 1 && callres(rb.next.NextServer, 0, 1) != nil
 //@   ensures {C11} fresh_cookie_for_the_server_chosen: rb.stickySession != nil && calls(rb.next.NextServer) == 1 && callres(rb.next.NextServer, 0, 1) == nil ==> calls(StickBackend) == 1 && callarg(StickBackend, 0, 1) == callres(rb.next.NextServer, 0, 0) && callarg(StickBackend, 0, 2) == w
-//@   ensures {C11} pinned_requests_leave_the_rotation_alone: calls(GetBackend) == 1 && callres(GetBackend, 0, 1) ==> calls(rb.next.NextServer) == 0 && calls(rb.errHandler.ServeHTTP) == 0
+//@   ensures {C01,C11} pinned_requests_leave_the_rotation_alone: calls(GetBackend) == 1 && callres(GetBackend, 0, 1) ==> calls(rb.next.NextServer) == 0 && calls(rb.errHandler.ServeHTTP) == 0
 //@   ensures {C11} bad_cookies_are_balanced_normally: calls(GetBackend) == 1 && !callres(GetBackend, 0, 1) ==> calls(rb.next.NextServer) == 1
 //@   at_call rb.next.Next.ServeHTTP routed_to_selection: (calls(rb.next.NextServer) == 1 && callres(rb.next.NextServer, 0, 1) == nil && arg1.URL == callres(rb.next.NextServer, 0, 0)) || (calls(rb.next.NextServer) == 0 && callres(GetBackend, 0, 1) && sameID(arg1.URL, callres(GetBackend, 0, 0)))
 //@   at_call rb.next.Next.ServeHTTP {C02,C09,C11,C20} fresh_url: fresh(arg1.URL)
